@@ -115,7 +115,10 @@ func (cc *ChangeCollector) GetChanges() []*NodeChange {
 	changes := make([]*NodeChange, len(cc.Changes))
 	idx := 0
 	for _, v := range cc.Changes {
-		changes[idx] = v
+		// AddChange updates a record in place when its node is replaced again:
+		// hand out a copy, not the record itself
+		c := *v
+		changes[idx] = &c
 		idx++
 	}
 	return changes
